@@ -54,6 +54,10 @@ def eval_pair(case):
         cu, cv, nu, nv, fu, fv = c(u), c(v), n(u), n(v), f(u), f(v)
     except Exception as e:  # noqa
         return [("C03/raises", "%r / %r with %r raised %r" % (u, v, case["options"], e))]
+    if _returned_unchanged(u, case["options"]) or _returned_unchanged(v, case["options"]):
+        # no host / unparseable: normalize_url hands the input back as it is (C05's clause), there is no normalized form to compare
+        case["_premise_c"] = case["_premise_n"] = False
+        return out
     case["_premise_c"] = cu == cv
     case["_premise_n"] = nu == nv
     if cu == cv and nu != nv:
@@ -211,7 +215,7 @@ OPTS = st.fixed_dictionaries({"quoted": st.booleans(), "platform_aware": st.samp
 def _pairs(draw, tier):
     kind = draw(st.sampled_from(["spelling-dirty", "spelling-norm", "irrelevant-clean", "irrelevant-norm", "irrelevant-platform"]))
     if kind == "spelling-dirty":
-        s = draw(G.url_structs(max_segments=3, max_items=3, host_kw={"ip": True, "rootdot": True}))
+        s = draw(G.url_structs(max_segments=3, max_items=3, host_kw={"ip": True, "rootdot": True, "emptyhost": True}))
         pool, spool = T.SPELLING, T.STRING_LEVEL
     elif kind == "spelling-norm":
         s = draw(N.norm_structs(dirty=True, platform_hosts=True))
@@ -245,7 +249,7 @@ def _pairs(draw, tier):
 
 
 def _singles(tier):
-    s = st.one_of(G.url_structs(max_segments=3, max_items=3, host_kw={"ip": True, "rootdot": True}), N.norm_structs(dirty=True, platform_hosts=True), N.norm_structs(dirty=False))
+    s = st.one_of(G.url_structs(max_segments=3, max_items=3, host_kw={"ip": True, "rootdot": True, "emptyhost": True}), N.norm_structs(dirty=True, platform_hosts=True), N.norm_structs(dirty=False))
     return st.tuples(s, OPTS).map(lambda v: {"kind": "single", "u": _fix_edges(G.serialise(v[0])), "options": v[1]})
 
 
